@@ -64,6 +64,23 @@ func c18Files() map[string]string {
 			},
 			Resp: []connDef{{FromProc: "gen", ToStream: "end"}},
 		}.YAML(),
+		// a Retry processor on the response path: it keeps its per-sequence counters in
+		// the flow's own context, which all transactions through the flow share
+		"flows/frt.yaml": flowDef{
+			Name: "frt", URL: "a.com/rt",
+			Procs: []procDef{
+				{Key: "flt", Type: "Filter", Params: [][2]string{{"status_code_range", "500-599"}}},
+				{Key: "retry", Type: "Retry", Params: [][2]string{{"attempts", "5"}, {"cooldown_between_attempts_seconds", "0"}, {"cooldown_multiplier", "1"}}},
+			},
+			Req: []connDef{{FromStream: "start", ToStream: "end"}},
+			Resp: []connDef{
+				{FromStream: "start", ToProc: "flt"},
+				{FromProc: "flt", Cond: "hit", ToProc: "retry"},
+				{FromProc: "flt", Cond: "miss", ToStream: "end"},
+				{FromProc: "retry", Cond: "retry", ToStream: "end"},
+				{FromProc: "retry", Cond: "failed", ToStream: "end"},
+			},
+		}.YAML(),
 		"quotas/qc.yaml":      c18ConcQuota,
 		"gateway_config.yaml": "gateway:\n  note: old\n",
 		"metrics.yaml":        string(m),
@@ -84,11 +101,11 @@ func runC18R(s *kernel.Sim) {
 		urls []int
 		grp  string
 	}
-	paths := [][2]string{{"a.com", "/p1"}, {"a.com", "/p2"}, {"a.com", "/l"}, {"b.io", "/c"}, {"a.com", "/zz"}, {"a.com", "/q"}}
+	paths := [][2]string{{"a.com", "/p1"}, {"a.com", "/p2"}, {"a.com", "/l"}, {"b.io", "/c"}, {"a.com", "/zz"}, {"a.com", "/q"}, {"a.com", "/rt"}}
 	plans := make([]plan, nTasks)
 	for i := range plans {
 		for k := tp.Range(1, 3); k > 0; k-- {
-			plans[i].urls = append(plans[i].urls, tp.Weighted([]int{2, 1, 3, 3, 1, 2}))
+			plans[i].urls = append(plans[i].urls, tp.Weighted([]int{2, 1, 3, 3, 1, 2, 3}))
 		}
 		plans[i].grp = []string{"", "a", "b"}[tp.Choose(3)]
 	}
@@ -140,12 +157,12 @@ func runC18R(s *kernel.Sim) {
 						pk.Add("sequence_id", id)
 						pk.Add("method", "GET")
 						pk.Add("url", paths[u][0]+paths[u][1])
-						pk.Add("status", int64(200))
+						pk.Add("status", int64(map[bool]int{true: 503, false: 200}[u == 6])) // the retry flow sees failures
 						pk.Add("headers", "")
 						pk.Add("body", []byte{})
 						handler(&request.Request{Messages: &message.Messages{&message.Message{Name: "lunar-on-response", KV: pk}}})
 					} else {
-						env.mgr.VerifOnResponse(lunarMessages.OnResponse{ID: id, SequenceID: id, Method: "GET", URL: paths[u][0] + paths[u][1], Status: 200, Headers: map[string]string{}, RawBody: []byte{}})
+						env.mgr.VerifOnResponse(lunarMessages.OnResponse{ID: id, SequenceID: id, Method: "GET", URL: paths[u][0] + paths[u][1], Status: map[bool]int{true: 503, false: 200}[u == 6], Headers: map[string]string{}, RawBody: []byte{}})
 					}
 				}
 			}
